@@ -82,6 +82,10 @@ pub fn gen(seed: u64, thorough: bool) -> Vec<String> {
     out
 }
 
+fn calls_seed(t: &str) -> usize {
+    t.bytes().map(|b| b as usize).sum()
+}
+
 fn err_name(e: &EncodingError) -> String {
     match e {
         EncodingError::TooManySurfaces => "TooManySurfaces".into(),
@@ -180,6 +184,11 @@ pub fn run(line: &str) -> Option<(String, Vec<String>)> {
         _ => Dithering::None,
     };
     enc.options.parallel = t[13] == "1";
+    // byte accounting must not depend on how generated levels are computed: vary the resize filter and alpha
+    // handling as a function of the case (not part of the model, which only sees sizes)
+    enc.mipmaps.resize_filter = [ResizeFilter::Nearest, ResizeFilter::Box, ResizeFilter::Triangle, ResizeFilter::Mitchell, ResizeFilter::Lanczos3]
+        [((w + 3 * h) as usize + calls_seed(t[9]) + calls_seed(t[10]) + calls_seed(t[5])) % 5];
+    enc.mipmaps.resize_straight_alpha = (w + h) % 2 == 0;
     // mode m: the caller supplies level 0 with generation off, then turns generation on
     enc.mipmaps.generate = mipmode == "g";
     let layout = enc.layout();
